@@ -71,6 +71,12 @@ def _outcome(f):
         return "err TypeError"
     except AttributeError:
         return "err AttributeError"
+    except KeyError:
+        return "err KeyError"
+    except Exception as e:       # CSEPCatalogException and the like
+        if type(e).__name__.startswith("CSEP"):
+            return "err Exception"
+        raise
 
 
 # ----------------------------------------------------------------------------- C06 generators
@@ -276,6 +282,172 @@ def tie_apply_mct(rng, n):
     return len(exp), [(c, a[:200], b[:200]) for (c, a), b in zip(exp, out) if a != b]
 
 
+# ----------------------------------------------------------------------------- C04 filter
+def _hex(x):
+    return x.encode("utf-8").hex()
+
+
+def _hexs(xs):
+    xs = list(xs)
+    return ";".join(_hex(x) for x in xs) if xs else "-"
+
+
+def tie_filter(mode):
+    def tie(rng, n):
+        """the real `filter` on generated catalogs and statement lists (generators of harness/c04.py, plus malformed
+        statements: unknown field, unknown operator, wrong number of tokens, unparsable value) against `SrcSM.filter_*`;
+        the opaque parsers are the tables of what `float` / `strptime_to_utc_epoch` return for the texts of the case"""
+        from . import c04 as base
+        from .core import frac
+        from csep.core.catalogs import CSEPCatalog
+        from csep.utils import time_utils
+        drv, exp = Driver(), []
+        for _ in range(max(25, n // 8)):
+            evs = base.gen_events(rng, rng.choice([0, 1, 3, 6, 12]))
+            rows = [base.row_of(e) for e in evs]
+            texts = [base.gen_stmt(rng, rows)["text"] for _ in range(rng.choice([0, 1, 1, 2, 3]))]
+            if rng.random() < 0.2:
+                texts.insert(rng.randrange(len(texts) + 1), rng.choice(
+                    ["foo > 1.0", "magnitude != 4.0", "magnitude > 4.0 5.0", "magnitude >", "depth <= abc",
+                     "datetime > 2010-13-45 00:00:00", "datetime > 2010-01-01", "magnitude  > 4.0"]))
+            stored = [base.gen_stmt(rng, rows)["text"] for _ in range(rng.choice([0, 0, 1, 2]))]
+            ftbl, ttbl = {}, {}
+            for t in (stored if mode == "stored" else texts):
+                toks = t.split(" ")
+                if toks[0] == "datetime" and len(toks) == 4:
+                    key = " ".join(toks[2:])
+                    try:
+                        ttbl[key] = int(time_utils.strptime_to_utc_epoch(key))
+                    except ValueError:
+                        pass
+                elif len(toks) == 3:
+                    try:
+                        v = float(toks[2])
+                        if v == v and abs(v) != float("inf"):
+                            ftbl[toks[2]] = frac(v)
+                    except ValueError:
+                        pass
+            cat = CSEPCatalog(data=evs, filters=list(stored)) if stored else CSEPCatalog(data=evs)
+            flt = lambda c: ",".join(_hex(x) for x in (c.filters if isinstance(c.filters, (list, tuple)) else [c.filters])) or "-"
+            ids = lambda c: ilist(r[0] for r in base.snapshot(c))
+
+            def call():
+                if mode == "inplace":
+                    r = cat.filter(list(texts))
+                    assert r is cat
+                    return f"ok {ids(cat)}|{flt(cat)}"
+                if mode == "stored":
+                    r = cat.filter()
+                    assert r is cat
+                    return f"ok {ids(cat)}|{flt(cat)}"
+                r = cat.filter(tuple(texts), in_place=False)
+                assert r is not cat
+                return f"ok {ids(r)}|{flt(r)}|{ids(cat)}|{flt(cat)}"
+            exp.append((dict(mode=mode, texts=texts, stored=stored, n=len(evs)), _outcome(call)))
+            enc = lambda d: ";".join(f"{_hex(k)}={v}" for k, v in d.items()) if d else "-"
+            drv.ask(f"srcsm_filter {mode} {base.enc_events(rows)} {_hexs(stored)} "
+                    f"{'none' if mode == 'stored' else _hexs(texts)} {enc(ftbl)} {enc(ttbl)}")
+        out = drv.run()
+        return len(exp), [(c, a[:200], b[:200]) for (c, a), b in zip(exp, out) if a != b]
+    return tie
+
+
+# ----------------------------------------------------------------------------- C03 gridding methods
+def _grid_case(rng):
+    """a catalog bound to a small Cartesian (or single-resolution quadtree) region, points inside / on edges / outside,
+    magnitudes around the edges of `mag_bins` (below the first edge, on an edge, above the last)"""
+    import numpy
+    from csep.core import regions
+    from csep.core.catalogs import CSEPCatalog
+    quad = rng.random() < 0.25
+    if quad:
+        reg = regions.QuadtreeGrid2D.from_single_resolution(rng.choice([1, 2]))
+        span = (-180.0, 180.0, -85.0, 85.0)
+    else:
+        nx, ny, dh = rng.randint(1, 3), rng.randint(1, 3), rng.choice([0.5, 1.0])
+        origins = [(10.0 + i * dh, -3.0 + j * dh) for i in range(nx) for j in range(ny)]
+        origins = [o for o in origins if rng.random() < 0.85] or origins[:1]
+        reg = regions.CartesianGrid2D.from_origins(numpy.array(origins), dh=dh)
+        span = (10.0 - dh, 10.0 + (nx + 1) * dh, -3.0 - dh, -3.0 + (ny + 1) * dh)
+    edges = sorted(set(round(rng.uniform(3.0, 7.0), 1) for _ in range(rng.randint(1, 4))))
+    n = rng.choice([0, 1, 2, 4, 8])
+    evs = []
+    for k in range(n):
+        if quad or rng.random() < 0.85:
+            o = None if quad else rng.choice(origins)
+            lon = rng.uniform(span[0], span[1]) if quad else o[0] + rng.choice([0.0, 0.25 * dh, dh - 1e-9])
+            lat = rng.uniform(span[2], span[3]) if quad else o[1] + rng.choice([0.0, 0.5 * dh])
+        else:
+            lon, lat = rng.uniform(span[0], span[1]), rng.uniform(span[2], span[3])
+        m = rng.choice([rng.choice(edges), rng.choice(edges) + 0.05, edges[0] - rng.choice([0.05, 0.5]) if rng.random() < 0.3
+                        else edges[-1] + 1.0, rng.uniform(3.0, 8.0)])
+        evs.append((k + 1, 1000 * k, float(lat), float(lon), 10.0, float(m)))
+    cat = CSEPCatalog(data=evs, region=reg)
+    return cat, reg, edges, evs
+
+
+class _spy_lookups:
+    """records what `region.get_index_of` and `catalogs.bin1d_vec` return during one real call"""
+
+    def __init__(self, reg):
+        self.reg, self.gio, self.b1d = reg, None, None
+
+    def __enter__(self):
+        from csep.core import catalogs
+        self.real_b1d, self.real_gio = catalogs.bin1d_vec, self.reg.get_index_of
+
+        def gio(lons, lats):
+            try:
+                r = self.real_gio(lons, lats)
+            except ValueError:
+                self.gio = "err"
+                raise
+            self.gio = "ok:" + ilist(int(v) for v in r)
+            return r
+
+        def b1d(p, bins, *a, **k):
+            r = self.real_b1d(p, bins, *a, **k)
+            self.b1d = ilist(int(v) for v in r)
+            return r
+        self.reg.get_index_of, catalogs.bin1d_vec = gio, b1d
+        return self
+
+    def __exit__(self, *a):
+        from csep.core import catalogs
+        del self.reg.get_index_of
+        catalogs.bin1d_vec = self.real_b1d
+
+
+def tie_grid(which):
+    def tie(rng, n):
+        import numpy
+        drv, exp = Driver(), []
+        for _ in range(max(25, n // 8)):
+            cat, reg, edges, evs = _grid_case(rng)
+            lons, lats, mags = [e[3] for e in evs], [e[2] for e in evs], [e[5] for e in evs]
+            with _spy_lookups(reg) as spy:
+                def call():
+                    if which == "spatial_counts":
+                        return "ok " + ilist(int(v) for v in cat.spatial_counts())
+                    if which == "magnitude_counts":
+                        return "ok " + ilist(int(v) for v in cat.magnitude_counts(mag_bins=numpy.array(edges)))
+                    r = cat.spatial_magnitude_counts(mag_bins=numpy.array(edges))
+                    return "ok " + (";".join(ilist(int(v) for v in row) for row in r) or "-")
+                got = _outcome(call)
+            g, b = spy.gio or "err", spy.b1d or "-"
+            exp.append((dict(which=which, n=len(evs), edges=edges, gio=g[:60], b1d=b[:60]), got))
+            if which == "spatial_counts":
+                drv.ask(f"srcsm_spatial_counts {flist(lons)} {flist(lats)} {reg.num_nodes} {g}")
+            elif which == "magnitude_counts":
+                drv.ask(f"srcsm_magnitude_counts {flist(mags)} {flist(edges)} {b}")
+            else:
+                drv.ask(f"srcsm_spatial_magnitude_counts {flist(lons)} {flist(lats)} {flist(mags)} {flist(edges)} "
+                        f"{reg.num_nodes} {g} {b}")
+        out = drv.run()
+        return len(exp), [(c, a[:200], b_[:200]) for (c, a), b_ in zip(exp, out) if a != b_]
+    return tie
+
+
 # ----------------------------------------------------------------------------- C17
 def _slist(xs):
     xs = list(xs)
@@ -408,6 +580,12 @@ def tie_build_bitmask_loop(rng, n):
 
 
 TIES = {
+    "spatial_counts": tie_grid("spatial_counts"),
+    "magnitude_counts": tie_grid("magnitude_counts"),
+    "spatial_magnitude_counts": tie_grid("spatial_magnitude_counts"),
+    "filter_inplace": tie_filter("inplace"),
+    "filter_stored": tie_filter("stored"),
+    "filter_new": tie_filter("new"),
     "build_bitmask_loop": tie_build_bitmask_loop,
     "create_tile": tie_create_tile,
     "create_tile_fix_len": tie_create_tile_fix_len,
